@@ -147,7 +147,7 @@ class IterModel:
         if self.kind == "iter":
             return v.elem_at(eng, st, i)
         if self.kind == "str":
-            return VStr(z3.SubString(v.t, i, 1))
+            return VStr(char_at(v.t, i))
         if self.kind == "rev":
             return self.inner.elem(eng, st, self.n - 1 - i)
         if self.kind == "dview":
@@ -232,7 +232,7 @@ def havoc_value(eng, st, v, name):
         return VOpaque(st.fresh("hv_" + name, z3.IntSort()), v.typ)
     if isinstance(v, VLine):
         return VLine(st.fresh("hv_" + name, v.t.sort()))
-    if isinstance(v, (VFunc, VClass, VModule, VExt, VType, VExc)):
+    if isinstance(v, (VFunc, VClass, VModule, VExt, VType, VExc, VDictView, VEnum, VRange, VReversed, VCSeq, VIter)):
         return v
     raise _E().Unsupported(f"cannot havoc {v!r}")
 
@@ -244,7 +244,7 @@ def merge_none_types(a, b):
     return None, None
 
 
-def discover(eng, st: State, run_body, pre_names):
+def discover(eng, st: State, run_body, pre_names, only_keys=None):
     """Discovery pass: run the body once from a state with *everything* havocked.
     Returns (assigned env names -> sample value, changed clists {id: changed_len}, writes list)."""
     E = _E()
@@ -253,7 +253,8 @@ def discover(eng, st: State, run_body, pre_names):
     d.dpos = 0
     # maximal havoc: fresh heap maps, fresh values for every env variable
     for k in list(d.heap.keys()):
-        d.heap[k] = d.fresh("dh", d.heap[k].sort())
+        if only_keys is None or k in only_keys:
+            d.heap[k] = d.fresh("dh", d.heap[k].sort())
     na = d.fresh("alloc", z3.IntSort())
     d.assume(na >= d.alloc)
     d.alloc = na
@@ -383,17 +384,12 @@ def apply_havoc(eng, st: State, entry: State, assigned, cl_changed, writes, ctr_
                 continue
             seen.add(r.get_id())
             uniq.append(r)
-        if not e["fresh"]:
-            for r in uniq:
-                m = z3.Store(m, r, st.fresh("hv", cur.sort().range()))
-            st.heap[key] = m
-        else:
-            nm = st.fresh("hm", cur.sort())
-            r = z3.Int("fr!")
-            conds = [r <= entry.alloc] + [r != s for s in uniq]
-            st.assume(FA([r], z3.Implies(z3.And(conds), z3.Select(nm, r) == z3.Select(cur, r)),
-                                patterns=[z3.Select(nm, r)]))
-            st.heap[key] = nm
+        # Writes through references that are provably allocated inside the loop need no havoc: beyond the allocation
+        # counter at the loop head the entry map is unconstrained anyway (an arbitrary content, exactly what an arbitrary
+        # iteration may have left there), and every slot that existed before the loop is unchanged.
+        for r in uniq:
+            m = z3.Store(m, r, st.fresh("hv", cur.sort().range()))
+        st.heap[key] = m
     na = st.fresh("alloc", z3.IntSort())
     st.assume(na >= st.alloc)
     st.alloc = na
@@ -458,6 +454,15 @@ def cut_loop(eng, n, st: State, itv, spec):
             return run_body_from(d, i_d)
 
         assigned, cl_changed, writes, douts = discover(eng, st, disc_body, set(st.env.keys()))
+        # second pass: only the maps the body can write are havocked, so that references computed through untouched maps
+        # are recognised as known at loop entry (slot havoc instead of whole-map havoc)
+        for _round in range(3):
+            wkeys = {w[0] for w in writes}
+            a2, c2, w2, d2 = discover(eng, st, disc_body, set(st.env.keys()), only_keys=wkeys)
+            if {w[0] for w in w2} <= wkeys:
+                assigned, cl_changed, writes, douts = a2, c2, w2, d2
+                break
+            writes = writes + w2
         grow = [cid for cid, how in cl_changed.items() if how == "len"]
         syn = assigned_names(n.body) | (assigned_names([n.target]) if is_for else set())
         promoted = False
@@ -498,7 +503,7 @@ def cut_loop(eng, n, st: State, itv, spec):
     else:
         raise E.Unsupported("could not stabilise loop shape", n)
 
-    if is_for:
+    if is_for and not getattr(eng, "discovery", 0):
         for key, ref, line, internal, fresh, sort in writes:
             if key[0] in ("LEN", "ELT") and not fresh:
                 for src in im.source_refs():
